@@ -88,3 +88,23 @@ pub fn property_lookup(
         }
     }
 }
+
+/// One cursor step of the UTF-16 / UCS-2 input types from a code unit offset:
+/// the element read and the offset after it (forward) or before it (backward).
+#[cfg(feature = "utf16")]
+pub fn utf16_step(units: &[u16], offset: usize, forward: bool, ucs2: bool) -> Option<(u32, usize)> {
+    use crate::indexing::{InputIndexer, Ucs2Input, Utf16Input};
+    fn step<I: InputIndexer>(inp: &I, offset: usize, forward: bool) -> Option<(u32, usize)>
+    where
+        I::Element: Into<u32>,
+    {
+        let mut pos = inp.left_end() + offset;
+        let elem = if forward { inp.next_right(&mut pos) } else { inp.next_left(&mut pos) }?;
+        Some((elem.into(), inp.pos_to_offset(pos)))
+    }
+    if ucs2 {
+        step(&Ucs2Input::new(units, true), offset, forward)
+    } else {
+        step(&Utf16Input::new(units, true), offset, forward)
+    }
+}
